@@ -12,6 +12,8 @@ has the same four forms as the rotation alone, and they must agree (both quatern
 """
 import itertools
 from fractions import Fraction
+import math
+import struct
 from laneflow import term as tm
 from laneflow import poly as P
 from laneflow import gtypes as G
@@ -344,7 +346,13 @@ def exponential_cases(tier, H):
                             res.append(R.ob(oid, 'q_exponential', R.REFUTED, 'the component is uninitialised on some path (a default-constructed quaternion is returned: its value is indeterminate unless GLM_FORCE_CTOR_INIT is defined): %s' % tm.show(t, 3),
                                             where=R.where_of(ctx.fn(k), t), kernel=k.source()))
                             continue
-                        st, detail = S.compare(t, spec[c].t, pc=pc, nan=False)
+                        sp = spec[c].t
+                        infc = tm.fconst(t.w, float('inf'))
+                        if any(x is infc for x in tm.walk(sp)):
+                            # the infinite constant has no place in a polynomial normal form: it is read as one more symbol on both sides
+                            sym = {infc: tm.inp('+infinity', 0, t.w)}
+                            t, sp = tm.substitute(t, sym), tm.substitute(sp, sym)
+                        st, detail = S.compare(t, sp, pc=pc, nan=False)
                         res.append(R.ob(oid, 'q_exponential', st, detail, where=R.where_of(ctx.fn(k), t) if st != R.PROVED else None, kernel=k.source()))
                     return res
                 return R.Case(name, [k], H.guard(name, [k], body))
@@ -355,6 +363,16 @@ def exponential_cases(tier, H):
             for i, c in enumerate('xyz'):
                 spec_e[c] = S.sel(small, zero, sn * (u[i] / lu))
             cs.append(lanes_case('exp(q)<%s>' % tg, ke, spec_e))
+            # log: the general arm and the three real-quaternion arms
+            kl = K('qlog_%s_%s' % (sc.tag, lay), [Par('o', qt, False), Par('q', qt)], '*o = log(*q);', cfg)
+            inf, pi_ = S.E(tm.fconst(w, float('inf'))), S.const(w, math.pi if w == 64 else float(struct.unpack('f', struct.pack('f', math.pi))[0]))
+            pos, neg = q['w'].gt(0.0), q['w'].lt(0.0)
+            tl = S.fn('atan2', lu, q['w']) / lu
+            spec_l = {'w': S.sel(small, S.sel(pos, S.fn('log', q['w']), S.sel(neg, S.fn('log', -q['w']), inf)), 0.5 * S.fn('log', lu * lu + q['w'] * q['w'])),
+                      'x': S.sel(small, S.sel(pos, zero, S.sel(neg, pi_, inf)), tl * q['x'])}
+            for c in 'yz':
+                spec_l[c] = S.sel(small, S.sel(pos, zero, S.sel(neg, zero, inf)), tl * q[c])
+            cs.append(lanes_case('log(q)<%s>' % tg, kl, spec_l))
             # pow: threshold of the real-number shortcut
             kp = K('qpow_%s_%s' % (sc.tag, lay), [Par('o', qt, False), Par('q', qt), Par('y', sc)], '*o = pow(*q, *y);', cfg)
 
@@ -391,4 +409,50 @@ def exponential_cases(tier, H):
                 a, b = L.out_lanes(ctx, ks, qt), L.out_lanes(ctx, ks2, qt)
                 return [R.ob('sqrt(q)<%s>[%s]' % (tg, c), 'q_exponential', R.PROVED if a[c] is b[c] else R.UNDECIDED, 'sqrt(q) is pow(q, 1/2)' if a[c] is b[c] else 'terms differ', kernel=ks.source()) for c in 'wxyz']
             cs.append(R.Case('sqrt(q)<%s>' % tg, [ks, ks2], H.guard('sqrt(q)<%s>' % tg, [ks, ks2], jsq)))
+    return cs
+
+
+def lookat_cases(tier, H):
+    """gtc quatLookAt / quatLookAtRH / quatLookAtLH (quaternion of the orthonormal frame (right, up', -+direction)):
+      dispatch   quatLookAt is quatLookAtRH, and quatLookAtLH when GLM_FORCE_LEFT_HANDED is defined (identical lane terms)
+      mirror     quatLookAtLH(d, up) == quatLookAtRH(-d, up)
+      frame      quatLookAtRH(d, up) == quat_cast of the matrix whose third column is -d, whose first column is cross(up, -d) scaled to unit length and whose second
+                 column is their cross product (built in the kernel from GLM's own cross / inversesqrt / quat_cast, compared as normal forms)"""
+    from laneflow import spec as S
+    LH = ('glm/glm.hpp', 'glm/gtc/quaternion.hpp')
+    cfgs = [('rh', Cfg('qla_rh', headers=LH), 'RH'), ('lh', Cfg('qla_lh', headers=LH, defines=('GLM_FORCE_LEFT_HANDED',)), 'LH'),
+            ('rh_wxyz', Cfg('qla_rh_wxyz', headers=LH, defines=('GLM_FORCE_QUAT_DATA_WXYZ',)), 'RH')]
+    cs = []
+    for T in (('float', 'double') if tier == 'thorough' else ('float',)):
+        sc = G.scalar(T)
+        v3 = G.vec(3, T)
+        for cn, cfg, hand in cfgs:
+            qt = G.quat(T, wxyz=cn.endswith('wxyz'))
+            tg = '%s,%s' % (sc.tag, cn)
+            ps = [Par('o', qt, False), Par('d', v3), Par('u', v3)]
+            kd = K('qla_%s_%s' % (sc.tag, cn), ps, '*o = quatLookAt(*d, *u);', cfg)
+            krh = K('qlarh_%s_%s' % (sc.tag, cn), ps, '*o = quatLookAtRH(*d, *u);', cfg)
+            klh = K('qlalh_%s_%s' % (sc.tag, cn), ps, '*o = quatLookAtLH(*d, *u);', cfg)
+            kmir = K('qlamir_%s_%s' % (sc.tag, cn), ps, '*o = quatLookAtRH(-*d, *u);', cfg)
+            kref = K('qlaref_%s_%s' % (sc.tag, cn), ps,
+                     '{ typedef glm::vec<3, %s, glm::defaultp> V; V f = -*d; V r = cross(*u, f); r = r * inversesqrt(max(%s(0.00001), dot(r, r))); V n = cross(f, r); '
+                     '*o = quat_cast(glm::mat<3, 3, %s, glm::defaultp>(r, n, f)); }' % (sc.cpp, sc.cpp, sc.cpp), cfg)
+
+            def same(name, rule, ka, kb, text, qt=qt):
+                def body(ctx):
+                    a, b = L.out_lanes(ctx, ka, qt), L.out_lanes(ctx, kb, qt)
+                    res = []
+                    pc = P.PCtx()
+                    for c in 'wxyz':
+                        if a[c] is b[c]:
+                            st, detail = R.PROVED, text + ' (identical lane term)'
+                        else:
+                            st, detail = S.compare(a[c], b[c], pc=pc, nan=False)
+                            detail = (text + ': ' + detail) if st == R.PROVED else detail.replace('the definition', text)
+                        res.append(R.ob('%s[%s]' % (name, c), rule, st, detail, where=R.where_of(ctx.fn(ka), a[c]) if st != R.PROVED else None, kernel=ka.source() + '\n' + kb.source()))
+                    return res
+                return R.Case(name, [ka, kb], H.guard(name, [ka, kb], body))
+            cs.append(same('quatLookAt<%s>.dispatch' % tg, 'lookat_dispatch', kd, krh if hand == 'RH' else klh, 'quatLookAt%s' % hand))
+            cs.append(same('quatLookAtLH<%s>.mirror' % tg, 'lookat_frame', klh, kmir, 'quatLookAtRH(-direction, up)'))
+            cs.append(same('quatLookAtRH<%s>.frame' % tg, 'lookat_frame', krh, kref, 'quat_cast(mat3(right, cross(-direction, right), -direction))'))
     return cs
